@@ -355,6 +355,36 @@ def c07(F: Facts):
     return out
 
 
+# --- C08 ---------------------------------------------------------------------------
+def c08(F: Facts):
+    out = []
+    observed = {}
+    for r in F.recs:
+        if r[2] == 'observed_complete':
+            observed[r[3]] = r[0]
+        elif r[2] == 'changed_after_complete':
+            ev, what = r[3], r[4]
+            obs = observed.get(ev, 0)
+            # results added by a bus the user dispatched the already-complete event to afterwards are the
+            # user's doing, not an instability of completion
+            user_later = set()
+            for seq, t, actor, bus, e, outcome, hl in F.disps:
+                if e == ev and outcome == 'ok' and seq > obs and not actor.startswith('fwd:'):
+                    user_later.add(bus)
+                    # ... and everything that bus forwards it to afterwards
+            if user_later:
+                reach = set(user_later)
+                for seq, t, actor, bus, e, outcome, hl in F.disps:
+                    if e == ev and outcome == 'ok' and seq > obs and actor.startswith('fwd:') and actor.split(':', 1)[1] in reach:
+                        reach.add(bus)
+                what2 = tuple(x for x in what if not (x.startswith('result_') and x.split(':', 1)[-1] in reach))
+                if not [x for x in what2 if x.startswith('result_') or x == 'signal_cleared']:
+                    continue
+                what = what2
+            out.append(V('C08', 'changed_after_complete', (ev,) + tuple(what[:3]), what=what, observed_at=obs, seq=r[0]))
+    return out
+
+
 # --- C09 ---------------------------------------------------------------------------
 def c09(F: Facts):
     out = []
@@ -614,8 +644,9 @@ def c16(F: Facts):
     for x in F.stops:
         bus, b, e, tb, te, timeout, actor, outcome, was_running = x
         if e is None:
-            out.append(V('C16', 'stop_never_returned', (bus, actor)))
-            continue
+            if F.end == 'ok' or F.end == 'cancelled_all':
+                out.append(V('C16', 'stop_never_returned', (bus, actor)))
+            continue  # in a cut run the open stop() is reported by the hang clause
         if outcome != 'ret':
             if outcome != 'cancelled':
                 out.append(V('C16', 'stop_raised', (bus, actor), outcome=outcome))
@@ -623,16 +654,7 @@ def c16(F: Facts):
         if te - tb > (timeout or 0.0) + 1.0 + EPS:
             out.append(V('C16', 'stop_slow', (bus, actor), took=te - tb, timeout=timeout))
         # restarts: a later accepted dispatch / wait_until_idle on the bus restarts it by design
-        restart = None
-        for seq, t, a_, bb, ev, oc, hl in F.disps:
-            if bb == bus and seq > e and oc == 'ok' and not a_.startswith('fwd:') is False:
-                pass
-        for seq, t, a_, bb, ev, oc, hl in F.disps:
-            if bb == bus and seq > e:
-                restart = seq if restart is None else min(restart, seq)
-        for y in F.idles:
-            if y[0] == bus and y[1] > e:
-                restart = y[1] if restart is None else min(restart, y[1])
+        restart = F.restart_after_stop(bus, b)
         for a in F.acts.values():
             if a.bus == bus and a.enter_seq > e and (restart is None or a.enter_seq < restart):
                 out.append(V('C16', 'handler_after_stop', (bus, a.ev, a.hi), act=a.id))
